@@ -44,7 +44,16 @@ pub fn run() {
             .split(';')
             .map(|p| {
                 let v: Vec<&str> = p.split(',').collect();
-                (v[0].parse().unwrap(), v[1].parse().unwrap(), v[2] == "1", v[3] == "x")
+                (v[0].parse().unwrap(), v[1].parse().unwrap(), v[2] == "1", v[3] == "x" || v[3] == "b" || v[3] == "z")
+            })
+            .collect();
+        // crossbeam routes whose consumer supplies its own BOUNDED sender (capacity 1 for 'b', 0 for 'z') and reads slowly
+        let bounded: Vec<Option<usize>> = a["plan"]
+            .split(';')
+            .map(|p| match p.split(',').nth(3) {
+                Some("b") => Some(1),
+                Some("z") => Some(0),
+                _ => None,
             })
             .collect();
         let threads: usize = a.get("threads").map(|s| s.parse().unwrap()).unwrap_or(1);
@@ -74,9 +83,25 @@ pub fn run() {
             let mine: Vec<(usize, ipc::IpcReceiver<(u32, u32)>, bool)> =
                 (0..n).filter(|i| i % threads == t).map(|i| (i, regs[i].take().unwrap(), plan[i].3)).collect();
             let (proxy, log, xrecv) = (proxy.clone(), log.clone(), xrecv.clone());
+            let bounded = bounded.clone();
             handles.push(std::thread::spawn(move || {
                 for (i, rx, cross) in mine {
-                    if cross {
+                    if let Some(cap) = bounded[i] {
+                        // the consumer's own bounded channel: a slow reader copies everything into an unbounded one, which the
+                        // common code below drains like any other crossbeam route
+                        let (btx, brx) = crossbeam_channel::bounded::<(u32, u32)>(cap);
+                        let (utx, urx) = crossbeam_channel::unbounded::<(u32, u32)>();
+                        proxy.route_ipc_receiver_to_crossbeam_sender(rx, btx);
+                        std::thread::spawn(move || {
+                            while let Ok(m) = brx.recv() {
+                                std::thread::sleep(std::time::Duration::from_micros(300));
+                                if utx.send(m).is_err() {
+                                    break;
+                                }
+                            }
+                        });
+                        xrecv.lock().unwrap().push((i as u32, urx));
+                    } else if cross {
                         let r = proxy.route_ipc_receiver_to_new_crossbeam_receiver(rx);
                         xrecv.lock().unwrap().push((i as u32, r));
                     } else {
